@@ -116,6 +116,10 @@ func TestVerif_C17_Checkpointer(t *testing.T) {
 				}
 				e, p := state()
 				tw.Emit(vObj{"a": "Processed", "toks": [][]int{rk(s)}, "E": e, "P": p})
+			case "Sort":
+				_ = c.calculateSafeProcessedSeq()
+				e, p := state()
+				tw.Emit(vObj{"a": "Sort", "E": e, "P": p})
 			case "Cancel":
 				cancel()
 				e, p := state()
